@@ -539,14 +539,24 @@ package core
 //@ func makeMethod
 //@   prop C08
 //@   havoc
+//@   flag bounds=panic
 //@   ensures [trailing_error_result_is_recognised_by_interface] result.returnError == (type_numout(ival(t)) > 0 &&
 //@       type_implements(type_out(ival(t), type_numout(ival(t)) - 1), ival(errorType)))
 
 // a proxy call: the caller's declared result types are those of THIS proxy method, on every call
+// (assumed) struct-tag parsing and the entry into the invoke chain
+//@ func ParseTag
+//@   havoc
+//@ func (*Client).InvokeContext
+//@   havoc
+//@   modifies @NEXT_INVOKE
+
 //@ func (invocation).Invoke
 //@   prop C08
 //@   havoc
 //@   flag typeassert=panic
+//@   flag bounds=panic
+//@   modifies @NEXT_INVOKE
 //@   loop 1 invariant 0 <= i && len(clientContext.ReturnType) == n && clientContext != nil && forall(k, 0, i, ival(clientContext.ReturnType[k]) == type_out(ival(t), k))
 //@   atcall InvokeContext [declared_result_types_are_this_methods] clientContext != nil &&
 //@       len(clientContext.ReturnType) == type_numout(ival(t)) - ite(type_numout(ival(t)) > 0 && ival(clientContext.ReturnType[type_numout(ival(t)) - 1]) == ival(errorType), 1, 0) &&
